@@ -33,14 +33,23 @@ WITNESS = {"sub": "witness", "quick": {}, "thorough": {}, "timeout": 600}
 
 PROPS = {
     "C01": {
-        "lean_modules": ["Props.C01"],
         "harness": [e2e("mixed,lifecycle,code,invalid,precompile", 100, 3000), WITNESS],
         "rule": E2E_RULE,
         "trusted_base": E2E_TRUST,
         "modelled": ["a transaction as a deterministic interaction tree over reads (Model/Block.lean); in-order semantics `ideal`; multi-version read resolution `view`"],
         "assumptions": ["monitored: an incarnation's result is a function of the values returned to it (determinism of revm)"],
-        "partial": ["the theorem here is the static core (validated reads => in-order result); that every finalized result has validated reads is the pipeline theorem of C02"],
-        "explanation": "Theorem validated_reads_imply_in_order / outcomes_in_order: any recorded runs whose reads equal the final writes of their predecessors are exactly the in-order runs, for every block and base state; tied to the code by end-to-end comparison with stock revm under controller schedules.",
+        "lean_modules": ["Props.C01", "Props.C02"],
+        "partial": ["the composition with the representation layer (physical locations vs. revm's logical state, C08/C09) and the cache/bundle layer (C10) is by the end-to-end oracle, not by a single Lean theorem"],
+        "explanation": "Static core validated_reads_imply_in_order / outcomes_in_order (Props/C01) + the pipeline theorems of Props/C02 (execute_ok: when the block is committed the outcome list is the in-order list, for every block, worker count and interleaving); tied to the code by end-to-end comparison with stock revm under controller schedules.",
+    },
+    "C02": {
+        "lean_modules": ["Props.C02"],
+        "harness": [e2e("mixed,lifecycle,code,invalid,precompile", 100, 3000, label="per-commit-oracle"), WITNESS],
+        "rule": E2E_RULE + "; for C02 the decisive comparison is per commit: every applied commit event (txid, result, finalized state changes) must be the next index, exactly once, and equal the in-order result and state of that transaction",
+        "trusted_base": E2E_TRUST,
+        "modelled": ["execute_task / validate / mark_mv_estimate / rewind_validation_to / lock_finality_candidate / run_commit_loop of src/scheduler.rs and src/scheduler/context.rs as Model/Sched.lean: one action per shared-memory access, worker control state attached to the transaction it holds the lock of (any number of workers)", "choice of which transaction a worker claims, and the vcur pre-filter of finality, are over-approximated (arbitrary / dropped)", "beneficiary history reads are not part of this model (C07)"],
+        "assumptions": ["reads with no preceding MV entry return the block-start value (monitored assumption 7 of DESIGN.md)", "determinism of a transaction as a function of the values it reads"],
+        "explanation": "Theorems finalized_exact, commit_prefix, commit_once, finality_is_final, stale_validation_never_final, execute_ok over ALL reachable states of the pipeline model (any block, any number of workers, any interleaving), proved by five inductive invariant groups incl. the timestamp invariant I1'.",
     },
     "C03": {
         "lean_modules": ["Props.C03"],
